@@ -147,7 +147,7 @@ func write(e *ttlv.Encoder, it Item) {
 		e.ByteString(it.Tag, b)
 	case "DateTime":
 		ep, _ := strconv.ParseInt(it.Epoch, 10, 64)
-		e.DateTime(it.Tag, time.Unix(ep, 0).In(zoneOf(it.Zone)))
+		e.DateTime(it.Tag, time.Unix(ep, []int64{0, 600_000_000, 999_999_999}[uint64(ep)%3]).In(zoneOf(it.Zone))) // (with a fraction of a second, as for intervals)
 	case "Interval":
 		// an Interval is a whole number of seconds: a duration with a fraction of a second (a time.Until result) is written as its
 		// whole seconds, by every encoding alike
